@@ -372,4 +372,64 @@ theorem mem_orgList (q : Pop W) (hl : ∀ u ∈ C02.orgUids q.species, u ∈ q.o
   simp only [C02.orgUids, List.mem_flatMap, List.mem_map]
   exact ⟨s, hs, x, hx, rfl⟩
 
+/-! ### the values the mean is taken over -/
+
+omit [Scalar W] in
+theorem fitness_of_okey (l : List (Org W)) : l.map (·.fitness) = (l.map okey).map (·.2.1) := by
+  simp [okey, Function.comp_def]
+
+/-- the fitness values of the adjusted species are the documented adjusted values of its members (reordered) -/
+theorem adjustFitness_fitness_perm (o : EpochOpts W) (s s' : Species W) (h : adjustFitness o s = .ok s') :
+    (s'.orgs.map (·.fitness)).Perm (s.orgs.map (fun x => adjustedFitness o s x.fitness)) := by
+  unfold adjustFitness at h
+  simp only at h
+  split at h
+  · cases h
+  · rename_i top rest hsort
+    cases h
+    simp only
+    rw [fitness_of_okey, markOrgs_okey, ← fitness_of_okey]
+    unfold sortOrgsDesc
+    refine ((goSort_perm _ _).map _).trans ?_
+    rw [List.map_map]
+    exact List.Perm.of_eq (List.map_congr_left (by intro x _; rfl))
+
+theorem adjustAll_fitness_perm (o : EpochOpts W) (ss ss' : List (Species W)) (h : adjustAll o ss = .ok ss') :
+    ((ss'.flatMap (·.orgs)).map (·.fitness)).Perm
+      (ss.flatMap (fun s => s.orgs.map (fun x => adjustedFitness o s x.fitness))) := by
+  induction ss generalizing ss' with
+  | nil => simp only [adjustAll] at h; cases h; exact List.Perm.refl _
+  | cons s ss ih =>
+    simp only [adjustAll] at h
+    split at h
+    · cases h
+    · rename_i s1 h1
+      split at h
+      · cases h
+      · rename_i ss1 h2
+        cases h
+        simp only [List.flatMap_cons, List.map_append]
+        exact (adjustFitness_fitness_perm o s s1 h1).append (ih ss1 h2)
+
+theorem filterMap_eq_self {α} (l : List α) (f : α → Option α) (h : ∀ x ∈ l, f x = some x) : l.filterMap f = l := by
+  induction l with
+  | nil => rfl
+  | cons a as ih =>
+    rw [List.filterMap_cons_some (h a (by simp)), ih (fun x hx => h x (by simp [hx]))]
+
+/-- if `Population.Organisms` lists exactly the members of the species (each once), the organisms in that order are a
+    rearrangement of the species' member lists -/
+theorem orgList_perm (q : Pop W) (hperm : q.organisms.Perm (C02.orgUids q.species)) (hnd : (C02.orgUids q.species).Nodup) :
+    q.orgList.Perm (q.species.flatMap (·.orgs)) := by
+  unfold Pop.orgList
+  refine (hperm.filterMap _).trans (List.Perm.of_eq ?_)
+  have huids : C02.orgUids q.species = (q.species.flatMap (·.orgs)).map (·.uid) := by
+    simp [C02.orgUids, List.map_flatMap]
+  rw [huids, List.filterMap_map]
+  have hall : ∀ x ∈ q.species.flatMap (·.orgs), (q.findOrg ∘ (·.uid)) x = some x := by
+    intro x hx
+    obtain ⟨s, hs, hxs⟩ := List.mem_flatMap.mp hx
+    exact findOrg_of_mem q hnd s hs x hxs
+  exact filterMap_eq_self _ _ hall
+
 end GoNeat.C09
